@@ -17,6 +17,7 @@ import (
 
 	"verif/lib/ev"
 	"verif/lib/fsx"
+	"verif/lib/mgen"
 	"verif/lib/world"
 )
 
@@ -200,8 +201,25 @@ func checkSurvive(w world.World, viaLink, relExtract, dotExtract bool) error {
 		os.MkdirAll(dir, 0755)
 		os.WriteFile(filepath.Join(dir, "terraform-sources.json"), []byte(`{"terraform_source_bundle":1,"packages":[{"source":"git::https://example.com/earlier.git","local":"earlier","meta":{}}],"registry":[]}`), 0644)
 		os.Mkdir(filepath.Join(dir, "earlier"), 0755)
-		if _, err := sourcebundle.OpenDir(dir); err != nil {
+		if d == "b3" {
+			// ... the earlier bundle in the directory the archive will be extracted into knew the same registry
+			// packages and versions, at another address, and was asked about them
+			doc := mgen.Doc{Format: "1", Packages: []mgen.Pkg{{Source: "git::https://example.com/earlier.git", Local: "earlier"}}}
+			for _, rp := range w.Registry {
+				reg := mgen.Reg{Source: rp.Addr}
+				for _, v := range rp.Versions {
+					reg.Versions = append(reg.Versions, mgen.RegVer{V: v.V, Source: "git::https://example.com/earlier.git//elsewhere"})
+				}
+				doc.Registry = append(doc.Registry, reg)
+			}
+			os.WriteFile(filepath.Join(dir, "terraform-sources.json"), doc.Render(), 0644)
+		}
+		eb, err := sourcebundle.OpenDir(dir)
+		if err != nil {
 			return fmt.Errorf("harness: earlier bundle: %v", err)
+		}
+		if d == "b3" {
+			describe(w, eb, dir)
 		}
 		fsx.RemoveAll(dir)
 	}
